@@ -27,8 +27,8 @@ def layers(ctx):
     return [layer_rhs1d, layer_flux_euler, layer_int]
 
 
-def conv_error(num, integ, n, a, k, phase, cfl):
-    msh = impl.mesh.unimesh(ncell=n, length=1.0)
+def conv_error(num, integ, n, a, k, phase, cfl, x0=0.0):
+    msh = impl.mesh.unimesh(ncell=n, length=1.0, x0=x0)
     mod = impl.convection.model(a)
     disc = impl.modeldisc.fvm(mod, msh, num)
     # cell averages of sin(2 pi k x + phase)
@@ -72,9 +72,10 @@ def oracle(ctx, seeds=None):
             lim = ''; num = lambda: getattr(impl.xnum, name)()
         cfl = 0.1 if name in ('extrapol3', 'centered') else 0.3     # keep the temporal error below the spatial one
         ns = (40, 80, 160) if name != 'extrapol3' else (24, 48, 96)
-        ok, errs = impl.guarded(lambda: [conv_error(num(), integ, n * k, a, k, phase, cfl) for n in ns])
+        x0 = float(rng.choice([0.0, 1.0, -4.0, 2.5, rng.normal()]))      # the origin of the periodic domain is arbitrary
+        ok, errs = impl.guarded(lambda: [conv_error(num(), integ, n * k, a, k, phase, cfl, x0) for n in ns])
         res.case(('order', name, lim, integ, np.sign(a), k))
-        rp = dict(kind='order', scheme=name, limiter=lim, integrator=integ, a=a, k=k, phase=phase)
+        rp = dict(kind='order', scheme=name, limiter=lim, integrator=integ, a=a, k=k, phase=phase, x0=x0)
         if not ok:
             res.fail('order/%s:raised' % name, errs, rp); continue
         if not all(np.isfinite(errs)) or errs[2] <= 0:
@@ -134,22 +135,23 @@ def oracle(ctx, seeds=None):
     def ref():
         import flowdyn.solution.euler_riemann as sol
         out = []
-        for cls, L, R in ((sol.Sod_subsonic, (1., 0., 1.), (0.125, 0., 0.1)), (sol.Sod_supersonic, (1., 0., 1.), (0.01, 0., 0.01))):
-            mod = impl.euler.euler1d()
-            msh = impl.mesh.unimesh(ncell=200, length=2.0, x0=-1.0)
-            T = 0.3
-            W = cls(mod).primdata(msh, T)
-            ex = riemann_exact.sample(1.4, L, R, msh.centers() / T)
-            out.append([float(np.sum(np.abs(np.asarray(W[k]) - ex[k]) * msh.vol()) / np.sum(np.abs(ex[k]) * msh.vol() + 1e-300)) for k in range(3)])
+        for gam_ in (1.4, 5.0 / 3.0, 1.2):
+            for cls, L, R in ((sol.Sod_subsonic, (1., 0., 1.), (0.125, 0., 0.1)), (sol.Sod_supersonic, (1., 0., 1.), (0.01, 0., 0.01))):
+                mod = impl.euler.euler1d(gamma=gam_)
+                msh = impl.mesh.unimesh(ncell=200, length=2.0, x0=-1.0)
+                T = 0.3
+                W = cls(mod).primdata(msh, T)
+                ex = riemann_exact.sample(gam_, L, R, msh.centers() / T)
+                out.append((cls.__name__, gam_, [float(np.sum(np.abs(np.asarray(W[k]) - ex[k]) * msh.vol()) / np.sum(np.abs(ex[k]) * msh.vol() + 1e-300)) for k in range(3)]))
         return out
     ok, out = impl.guarded(ref)
     res.case(('reference',))
     if not ok:
         res.fail('reference:raised', out, dict(kind='reference'))
     else:
-        for j, errs in enumerate(out):
+        for (nm_, gam_, errs) in out:
             if max(errs) > 2e-3:
-                res.fail('reference:mismatch', "packaged %s solution differs from the independent exact solver: relative L1 (rho,u,p) = %r" % (['Sod_subsonic', 'Sod_supersonic'][j], errs), dict(kind='reference'))
+                res.fail('reference:mismatch', "packaged %s solution (gamma=%r) differs from the independent exact solver: relative L1 (rho,u,p) = %r" % (nm_, gam_, errs), dict(kind='reference', gamma=gam_))
     return res
 
 
